@@ -180,9 +180,18 @@ where
         reader.seek(SeekFrom::Start(row_pos - 4)).await?;
         let row_len = reader.read_u32().await?;
 
-        // Position of the beginning of the row
-        // FIXME: handle panic on overflow when file length is too short
-        let row_start = row_pos - (row_len as u64 + 8);
+        // Position of the beginning of the row; a row length that
+        // reaches before the start of the rows means the file
+        // is corrupted
+        let row_start = row_pos
+            .checked_sub(row_len as u64 + 8)
+            .filter(|start| *start >= self.header_offset)
+            .ok_or_else(|| {
+                std::io::Error::new(
+                    std::io::ErrorKind::InvalidData,
+                    "row length exceeds the preceding file content",
+                )
+            })?;
         let row_end = row_start + (row_len as u64 + 8);
 
         // Seek to the beginning of the row after the initial
